@@ -207,6 +207,9 @@ class MinFlowDecompCycles(walkmodel.AbstractWalkModelDiGraph):
             This overloads the `solve()` method from `AbstractWalkModelDiGraph` class.
         """
         self.solve_time_start = time.perf_counter()
+        # A previous successful solve() must not make this run look solved if it ends without a solution
+        self._is_solved = False
+        self._solution = None
         utils.logger.info(f"{__name__}: starting to solve the MinFlowDecompCycles model for graph id = {utils.fpid(self.G)}")
 
         if self.optimization_options.get("optimize_with_guessed_weights", MinFlowDecompCycles.optimize_with_given_weights):            
